@@ -43,6 +43,30 @@ PROPS["C07"] = {
     ],
 }
 
+PROPS["C11"] = {
+    "level": "proof",
+    "verus": {
+        "streamname": ["from_b64", "to_b64", "encode", "decode", "is_valid",
+                       "lemma_b64_inverse_v", "lemma_b64_inverse_c", "lemma_dec_append", "lemma_dec_single",
+                       "lemma_roundtrip", "lemma_injective", "lemma_enc_no_packable", "lemma_not_special",
+                       "lemma_stream_not_table", "lemma_shift6", "lemma_dec_bits", "lemma_pack_bits"],
+    },
+    "assumptions": [
+        "Peekable<Chars> obeys the iterator laws and yields exactly the remaining chars (trusted axiom axiom_peekable_chars_iter_laws and the next/peek specs in prelude/chars.rs)",
+        "the cfb container compares/stores root entry names as given and interprets only '/' and '\\' as separators (so an accepted, separator-free encoded name is one root entry)",
+        "Streams::next, read/write/remove_stream and remove_digital_signature (cfb I/O) are not covered",
+    ],
+}
+
+PROPS["C14"] = {
+    "level": "proof",
+    "verus": {},
+    "assumptions": [
+        "the encoding_rs tables ARE the Windows code pages their names designate and are self-inverse on representable characters (dependency data; the per-character law over 1,112,064 x 26 is NOT claimed)",
+        "28591 (ISO-8859-1) -> WINDOWS_1252 is accepted: encoding_rs, the stated oracle, has no separate ISO-8859-1 table",
+    ],
+}
+
 # assumptions that hold for every check of this family
 COMMON_ASSUMPTIONS = [
     "Verus 0.2026.09.13 (Z3 bundled) and Kani 0.68 / CBMC 6.11 are sound for the constructs used",
